@@ -145,6 +145,9 @@ def call_parse(text: str, ap: bool, rend: str) -> Any:
     return st["PyDBML"](text, **kw)
 
 
+_ORDER = [0]
+
+
 def content_digest(db: Any, with_render: bool = True) -> Tuple[str, Dict[str, Any]]:
     """Digest of the identity-aware snapshot plus, for databases configured with the default renderers, of
     their DBML and SQL text (what a caller obtains from a parse includes how it renders)."""
@@ -159,11 +162,33 @@ def content_digest(db: Any, with_render: bool = True) -> Tuple[str, Dict[str, An
             return ["exc", type(ex).__name__]
     for lang, qn in (("dbml", dq), ("sql", sq)):
         if with_render and qn is not None and (qn.startswith("pydbml.renderer.") or qn.startswith("verif.e1.Nested")):
-            # the elements on their own first (what table.dbml gives before the database was ever rendered),
-            # then the database
-            snap["_el_" + lang] = [h(lambda: getattr(o, lang)) for o in list(db.tables) + list(db.enums)]
-            snap["_" + lang] = h(lambda: getattr(db, lang))
+            # the elements on their own and the database, in alternating order from call to call (the texts are
+            # functions of the model: the order in which a caller reads them cannot matter)
+            _ORDER[0] += 1
+            if _ORDER[0] % 2:
+                snap["_el_" + lang] = [h(lambda: getattr(o, lang)) for o in list(db.tables) + list(db.enums)]
+                snap["_" + lang] = h(lambda: getattr(db, lang))
+            else:
+                snap["_" + lang] = h(lambda: getattr(db, lang))
+                snap["_el_" + lang] = [h(lambda: getattr(o, lang)) for o in list(db.tables) + list(db.enums)]
     return snap_digest(snap), snap
+
+
+def touch_elements(db: Any) -> None:
+    """What a caller does with a result: read the texts of single elements (of whatever renderer the database was
+    given).  The texts themselves are not compared here; reading them must not matter to any other result."""
+    for o in (list(db.tables)[:2] + list(db.enums)[:1] + list(db.refs)[:1]):
+        for lang in ("sql", "dbml"):
+            try:
+                getattr(o, lang)
+            except Exception:
+                pass
+        for sub in (getattr(o, "columns", None) or [])[:1]:
+            for lang in ("sql", "dbml"):
+                try:
+                    getattr(sub, lang)
+                except Exception:
+                    pass
 
 
 def outcome_of(text: str, ap: bool) -> List[str]:
@@ -442,6 +467,7 @@ def execute(wl: Dict[str, Any], policy: S.Policy, step_cap: int = 20_000_000) ->
     fresh fork with a cold grammar).  Returns counters, violation, schedule."""
     st = setup_tree()
     gc.disable()
+    _ORDER[0] = 0
     counters: Dict[str, int] = {}
     violations: List[Dict[str, Any]] = []
     census0 = census()
@@ -483,6 +509,8 @@ def execute(wl: Dict[str, Any], policy: S.Policy, step_cap: int = 20_000_000) ->
                  {"where": where, "doc": name, "allow_properties": ap, "renderers": rend, "want": want[wi], "got": dig,
                   "got_summary": summary(snap)})
         if rend in CUSTOM:
+            touch_elements(res)
+            count("fault:custom-rendered-elements-read")
             tq = tuple(st["renderers"][rend])
             if res.sql_renderer is not tq[0] or res.dbml_renderer is not tq[1] or res.allow_properties != ap:
                 viol("content", "content:options-not-applied", {"where": where, "doc": name})
@@ -606,8 +634,12 @@ def execute(wl: Dict[str, Any], policy: S.Policy, step_cap: int = 20_000_000) ->
                 elif op[0] == "render":
                     th.untraced -= 1
                     try:
+                        if op[1] % 2:
+                            touch_elements(ent["db"])
                         ent["db"].dbml
                         ent["db"].sql
+                        if not op[1] % 2:
+                            touch_elements(ent["db"])
                     except Exception as ex:
                         counters["render-raised:" + type(ex).__name__] = counters.get("render-raised:" + type(ex).__name__, 0) + 1
                     th.untraced += 1
